@@ -329,7 +329,7 @@ func profC02() spec.Profile {
 
 func runC02(ctx *h.Ctx) int {
 	// random trees, up to 8 leaves
-	ctx.RunCases("random-conditions", ctx.N(7000, 400000), func(k *h.Case) {
+	ctx.RunCases("random-conditions", ctx.N(7000, 200000), func(k *h.Case) {
 		p := profC02()
 		p.MaxLeaves = 1 + k.Index%8
 		g := spec.NewGen(k.R, p)
